@@ -77,7 +77,7 @@ PROPS['C08'] = dict(level='other', steps=[E3('c08-orders', needs_seq_bin=True, t
 PROPS['C10'] = dict(level='other', steps=[V('bookmarks'), E3('c10-renumber')],
                 title='Renumbering objects preserves the document graph',
                 technique='Verus contract on renumber_bookmarks / update_bookmark_pages (bookmark targets follow a renamed page throughout the forest, nothing else changes, termination); bounded-exhaustive executable contract: 14 page-tree templates x all id permutations x 3 id sets x starts x bookmark sets, and every reference graph over <= 3 objects with dangling ids, 5 container kinds and 4 trailer shapes, against an independent renaming-discovery oracle',
-                text='proved for every pending bookmark forest built by add_bookmark, every old and new id (Verus unit bookmarks): renumber_bookmarks / update_bookmark_pages terminate, change nothing but pages equal to the old id, which become the new id (renamed), and leave every bookmark in the forest under the top-level list pointing at its target (all_renamed), whatever the order of the walk. Bounded stand-in for the rest: renumber_objects_with is BTreeMap/closure code over the whole Document and outside the verifiers\' subset; the postcondition of the property (consecutive numbers, max_id, a one-to-one renaming under which trailer, objects and bookmark targets are equal, dangling stays dangling, page order) is evaluated on every enumerated document.',
+                text='proved for every pending bookmark forest built by add_bookmark, every old and new id (Verus unit bookmarks): renumber_bookmarks / update_bookmark_pages terminate, change nothing but pages equal to the old id, which become the new id (renamed), and leave every bookmark in the forest under the top-level list pointing at its target (all_renamed), whatever the order of the walk. Since the repair that made renumber_objects_with rename everything at once (apply_renaming), renumber_objects_with no longer calls renumber_bookmarks: the contract covers the public function a caller uses to keep bookmark targets in step with a page it renames itself, not the renumbering pass. Bounded stand-in for the renumbering pass: renumber_objects_with is BTreeMap/closure code over the whole Document and outside the verifiers\' subset; the postcondition of the property (consecutive numbers, max_id, a one-to-one renaming under which trailer, objects and bookmark targets are equal, dangling stays dangling, page order) is evaluated on every enumerated document.',
                 note='bounded; start = 0, object number 0 in use and start + n > u32::MAX are recorded as known findings K-C10-1..4 (outside the domain of the function)')
 
 PROPS['C11'] = dict(level='other', steps=[V('ids'), E3('c11-edits')],
